@@ -161,7 +161,7 @@ fn mk_desc<C: Serialize>(op: &str, backend: &str, kind: &str, case: &C, s: &Shap
 /// reduced gadget-shape set shared by the composite operations (trace, packing, conversions)
 pub fn composite_shapes(tier: Tier, n: usize, ranks: &[usize]) -> Vec<Shape> {
     let mut out = vec![];
-    let triples: Vec<(usize, usize, usize)> = tier.pick(vec![(12, 12, 12), (10, 12, 8)], vec![(12, 12, 12), (17, 17, 17), (12, 17, 12), (10, 12, 8), (17, 10, 12)]);
+    let triples: Vec<(usize, usize, usize)> = tier.pick(vec![(12, 12, 12), (10, 12, 8)], vec![(12, 12, 12), (17, 17, 17), (12, 17, 12), (10, 12, 8), (17, 10, 12), (5, 15, 10), (15, 5, 10)]);
     let noises: Vec<NoiseCfg> = tier.pick(vec![NoiseCfg::Default], vec![NoiseCfg::Default, NoiseCfg::Tight]);
     for (b_in, b_key, b_out) in triples {
         for &rank in ranks {
@@ -1080,7 +1080,7 @@ where
 
 pub fn lwe_cases<B: Bk>(tier: Tier) -> Vec<LweCase> {
     let mut out = vec![];
-    let triples: Vec<(usize, usize, usize)> = tier.pick(vec![(12, 12, 12), (10, 12, 8)], vec![(12, 12, 12), (17, 17, 17), (12, 17, 12), (10, 12, 8), (17, 10, 12)]);
+    let triples: Vec<(usize, usize, usize)> = tier.pick(vec![(12, 12, 12), (10, 12, 8)], vec![(12, 12, 12), (17, 17, 17), (12, 17, 12), (10, 12, 8), (17, 10, 12), (5, 15, 10), (15, 5, 10)]);
     let noises: Vec<NoiseCfg> = tier.pick(vec![NoiseCfg::Default], vec![NoiseCfg::Default, NoiseCfg::Tight]);
     for n in tier.pick(vec![8], vec![8, 16]) {
         for op in ["lwe_keyswitch", "glwe_from_lwe", "lwe_from_glwe", "lwe_sample_extract"] {
@@ -1691,7 +1691,7 @@ where
 
 pub fn indep_cases<B: Bk>(tier: Tier) -> Vec<IndepCase> {
     let mut out = vec![];
-    let triples: Vec<(usize, usize, usize)> = tier.pick(vec![(12, 12, 12), (12, 17, 12), (10, 12, 8)], vec![(8, 8, 8), (12, 12, 12), (17, 17, 17), (12, 17, 12), (17, 12, 17), (10, 12, 8), (17, 10, 12), (8, 17, 12)]);
+    let triples: Vec<(usize, usize, usize)> = tier.pick(vec![(12, 12, 12), (12, 17, 12), (10, 12, 8)], vec![(8, 8, 8), (12, 12, 12), (17, 17, 17), (12, 17, 12), (17, 12, 17), (10, 12, 8), (17, 10, 12), (8, 17, 12), (5, 15, 10), (15, 5, 10)]);
     for n in tier.pick(vec![8], vec![8, 16]) {
         for &(b_in, b_key, b_out) in &triples {
             for rank_in in 1..=3 {
